@@ -97,6 +97,10 @@ func NewMultiDBOpts(kinds []string, lists []string, sameName, sharedOpts bool) (
 
 // NewMultiDBRepl: with replicate false the instance under test opens its databases with Replicate=false (no
 // pubsub); entries of the remote peer then reach it through explicit "psync" actions only.
+// multiDBSameRoot (set by the unit that wants it): every database after the first is the first database's
+// manifest opened under a longer path ("<address>/archive<i>"): same root, different address.
+var multiDBSameRoot bool
+
 func NewMultiDBRepl(kinds []string, lists []string, sameName, sharedOpts, replicate bool) (*MultiDB, error) {
 	w := &MultiDB{net: sim.NewNet(), events: map[string]int{}, noRepl: !replicate}
 	shared := &orbitdb.CreateDBOptions{Replicate: boolp(replicate)}
@@ -120,6 +124,17 @@ func NewMultiDBRepl(kinds []string, lists []string, sameName, sharedOpts, replic
 			name = "shared-name"
 		}
 		var sp, sr iface.Store
+		if multiDBSameRoot && i > 0 {
+			alt := w.dbs[0].addr + fmt.Sprintf("/archive%d", i)
+			if sp, err = w.P.DB.Open(bg, alt, &orbitdb.CreateDBOptions{Replicate: boolp(replicate)}); err != nil {
+				return nil, fmt.Errorf("open %s: %w", alt, err)
+			}
+			if sr, err = w.R.DB.Open(bg, alt, &orbitdb.CreateDBOptions{Replicate: boolp(true)}); err != nil {
+				return nil, err
+			}
+			w.dbs = append(w.dbs, &mdb{kind: w.dbs[0].kind, addr: sp.Address().String(), sp: sp, sr: sr})
+			continue
+		}
 		if sharedOpts {
 			if sr, err = w.R.DB.Create(bg, name, k, &orbitdb.CreateDBOptions{AccessController: ac, Replicate: boolp(true)}); err != nil {
 				return nil, err
@@ -557,6 +572,7 @@ func (w *MultiDB) Close() {
 }
 
 type C09Arg struct {
+	SameRoot    bool // databases 1.. are database 0's manifest opened under a longer path
 	NoReplicate bool // the instance's databases are opened with Replicate=false
 	FetchGated  int  // > 0: entries per database held by the remote peer only; block fetches gated
 	SharedOpts  bool
@@ -586,13 +602,16 @@ func (a C09Arg) Name() string {
 	if a.NoReplicate {
 		g += "/not-replicating"
 	}
+	if a.SameRoot {
+		g += "/same-root"
+	}
 	return fmt.Sprintf("multidb/%s/%s/d%d%s/shard%d.%d", strings.Join(a.Kinds, "+"), strings.Join(a.Lists, "+"), a.Depth, g, a.Shard, a.Shards)
 }
 
 func init() {
 	explore.Register(&explore.CheckDef{
 		ID: "C09", Level: "model_checking",
-		Rule: "one instance with its shared event bus holds 2-3 databases (type mixes, write lists {both peers, wildcard}); a remote instance holds replicas; explicit-state DFS over write(db), load(db), remote write(db) (announced on that database's topic), head exchange for db over the direct channel and delivery of any in-flight message, up to the depth bound; also with databases that share one name but differ in type or write list, with databases opened through one shared options value, with databases that do not replicate over pubsub and are handed remote heads explicitly, and with the instance's block fetches gated so that the heads of one database arrive while another database's replication is in flight (then every database must still end up with everything announced to it). After every action: every database not named by the action keeps its entry set, heads, view, cached heads, replication status and emitted-event counts; every topic/direct message sent by the instance carries its own address and only heads of that log; every write/replicated event carries only entries of its own address. Non-trivial = states in which at least two databases hold entries.",
+		Rule: "one instance with its shared event bus holds 2-3 databases (type mixes, write lists {both peers, wildcard}); a remote instance holds replicas; explicit-state DFS over write(db), load(db), remote write(db) (announced on that database's topic), head exchange for db over the direct channel and delivery of any in-flight message, up to the depth bound; also with databases that share one name but differ in type or write list, with databases that share one manifest root and differ in their path, with databases opened through one shared options value, with databases that do not replicate over pubsub and are handed remote heads explicitly, and with the instance's block fetches gated so that the heads of one database arrive while another database's replication is in flight (then every database must still end up with everything announced to it). After every action: every database not named by the action keeps its entry set, heads, view, cached heads, replication status and emitted-event counts; every topic/direct message sent by the instance carries its own address and only heads of that log; every write/replicated event carries only entries of its own address. Non-trivial = states in which at least two databases hold entries.",
 		Units: func(tier string) []explore.Unit {
 			cfgs := []C09Arg{
 				{Kinds: []string{"eventlog", "eventlog"}, Lists: []string{"both", "both"}, Depth: 4},
@@ -615,6 +634,7 @@ func init() {
 			cfgs = append(cfgs, C09Arg{SameName: true, Kinds: []string{"eventlog", "keyvalue"}, Lists: []string{"both", "both"}, Depth: gd - 3})
 			cfgs = append(cfgs, C09Arg{SameName: true, Kinds: []string{"eventlog", "eventlog"}, Lists: []string{"both", "*"}, Depth: gd - 3})
 			cfgs = append(cfgs, C09Arg{SharedOpts: true, Kinds: []string{"eventlog", "keyvalue"}, Lists: []string{"both", "*"}, Depth: gd - 3})
+			cfgs = append(cfgs, C09Arg{SameRoot: true, Kinds: []string{"eventlog", "eventlog"}, Lists: []string{"both", "both"}, Depth: gd - 3})
 			cfgs = append(cfgs, C09Arg{NoReplicate: true, Kinds: []string{"eventlog", "keyvalue"}, Lists: []string{"both", "both"}, Depth: gd - 2})
 			cfgs = append(cfgs, C09Arg{FetchGated: 2, Kinds: []string{"eventlog", "keyvalue"}, Lists: []string{"both", "both"}, Depth: 9})
 			cfgs = append(cfgs, C09Arg{Gated: true, Kinds: []string{"eventlog", "eventlog"}, Lists: []string{"both", "both"}, Depth: gd})
@@ -643,8 +663,9 @@ func init() {
 				return
 			}
 			d := &explore.DFS{
-				Scenario: a.Name(), Space: fmt.Sprintf("multidb/%s/%s/gated=%v/same=%v/shared=%v/fetch=%d/norepl=%v", strings.Join(a.Kinds, "+"), strings.Join(a.Lists, "+"), a.Gated, a.SameName, a.SharedOpts, a.FetchGated, a.NoReplicate),
+				Scenario: a.Name(), Space: fmt.Sprintf("multidb/%s/%s/gated=%v/same=%v/shared=%v/fetch=%d/norepl=%v/sameroot=%v", strings.Join(a.Kinds, "+"), strings.Join(a.Lists, "+"), a.Gated, a.SameName, a.SharedOpts, a.FetchGated, a.NoReplicate, a.SameRoot),
 				New: func() (explore.World, error) {
+					multiDBSameRoot = a.SameRoot
 					w, err := NewMultiDBRepl(a.Kinds, a.Lists, a.SameName, a.SharedOpts, !a.NoReplicate)
 					if err == nil && a.FetchGated > 0 {
 						err = w.PrepareFetchGated(a.FetchGated)
